@@ -173,6 +173,35 @@ static var thr_fn(var args) {
   return NULL;
 }
 
+/* roots that only static memory and malloc'ed memory know */
+static var RT_STATIC[128];
+static void __attribute__((noinline)) rt_build(var* heapmem, int64_t n, int64_t k) {
+  for (int64_t i = 0; i < n; i++) {
+    var o;
+    switch (imod(i + k, 3)) {
+      case 0: o = new_root(Int, $I(k + i)); break;
+      case 1: { char b[64]; word(k + i, b); o = new_root(String, $S(b)); break; }
+      default: o = new_root(Array, Int, $I(i), $I(k), $I(i * k % 7)); break;
+    }
+    if (imod(i, 2)) heapmem[i] = o; else RT_STATIC[imod(i, 128)] = o;
+  }
+}
+
+/* instances of run-time types (op `dy`) */
+struct Amt { int64_t raw; };
+static char AMT_BUF[2][32];
+static void Amt_New(var self, var args) { struct Amt* a = self; a->raw = c_int(get(args, $I(0))); }
+static int64_t AmtA_C_Int(var self) { return ((struct Amt*)self)->raw; }
+static uint64_t AmtA_Hash(var self) { return (uint64_t)((struct Amt*)self)->raw; }
+static size_t AmtA_Len(var self) { return 2; }
+static char* AmtA_C_Str(var self) { sprintf(AMT_BUF[0], "a%d", (int)((struct Amt*)self)->raw); return AMT_BUF[0]; }
+static int AmtA_Cmp(var a, var b) { int64_t x = ((struct Amt*)a)->raw, y = ((struct Amt*)b)->raw; return x < y ? -1 : x > y; }
+static int64_t AmtB_C_Int(var self) { return ((struct Amt*)self)->raw / 100; }
+static uint64_t AmtB_Hash(var self) { return (uint64_t)(((struct Amt*)self)->raw / 100) * 31; }
+static size_t AmtB_Len(var self) { return 0; }
+static char* AmtB_C_Str(var self) { sprintf(AMT_BUF[1], "b%d", (int)(((struct Amt*)self)->raw / 100)); return AMT_BUF[1]; }
+static int AmtB_Cmp(var a, var b) { int64_t x = ((struct Amt*)a)->raw, y = ((struct Amt*)b)->raw; return x > y ? -1 : x < y; }
+
 /* builds a heap view over fresh collector-allocated inputs and returns ONLY the view (the inputs too, through
    `keep`, for the manual-memory variant) */
 static var __attribute__((noinline)) hv_build(int64_t kind, int64_t k, int64_t m, var* keep) {
@@ -604,6 +633,55 @@ static void op_exec(struct W* w, const char* op) {
         append(s2, s1); resize(s1, 0); P("%s,%zu", c_str(s2), len(s1)); del(i1); del(f1); del(s1); del(s2); break;
       }
     }
+    return;
+  }
+  if (strcmp(op, "rt") == 0) {
+    /* roots held ONLY in static memory and in malloc'ed C memory (never on the stack), across growth of the
+       collector's table and allocation churn with collections; read back; del_root */
+    int64_t n = 3 + imod(A(0), 70);
+    var* heapmem = malloc(sizeof(var) * (size_t)n);
+    rt_build(heapmem, n, A(1));
+    hv_scrub();
+    int64_t acc = 0;
+    for (int64_t r = 0; r < 3; r++) {
+      for (int64_t i = 0; i < 150 + 40 * imod(A(2), 4); i++) { var g = new(Int, $I(i)); acc += c_int(g) % 5; }
+#ifndef CELLO_NGC
+      GC_Mark(current(GC)); GC_Sweep(current(GC));
+#endif
+      for (int64_t i = 0; i < 60; i++) { var g = new(String, $S("churn-churn")); acc += (int64_t)len(g); }
+    }
+    int64_t sum = 0; size_t slen = 0;
+    for (int64_t i = 0; i < n; i++) {
+      var o = imod(i, 2) ? heapmem[i] : RT_STATIC[imod(i, 128)];
+      if (type_of(o) is Int) sum += c_int(o);
+      else if (type_of(o) is String) slen += len(o);
+      else { foreach (e in o) { sum += c_int(e); } }
+    }
+    P("n=%" PRId64 ",sum=%" PRId64 ",slen=%zu,", n, sum, slen); pv(RT_STATIC[0]); P(","); pv(heapmem[1 % n]);
+    for (int64_t i = 0; i < n; i++) { del_root(imod(i, 2) ? heapmem[i] : RT_STATIC[imod(i, 128)]); }
+    free(heapmem);
+    return;
+  }
+  if (strcmp(op, "dy") == 0) {
+    /* run-time types: type A declares Hash / Len / C_Int / C_Str / Cmp, is used and deleted; type B, created next
+       (its record may reuse A's block), declares other instances of the same classes */
+    int64_t v = 100 + imod(A(0), 9000), v2 = 100 + imod(A(1), 9000);
+    var a_new = $(New, Amt_New, NULL), a_cint = $(C_Int, AmtA_C_Int), a_hash = $(Hash, AmtA_Hash), a_len = $(Len, AmtA_Len),
+        a_cstr = $(C_Str, AmtA_C_Str), a_cmp = $(Cmp, AmtA_Cmp);
+    var b_new = $(New, Amt_New, NULL), b_cint = $(C_Int, AmtB_C_Int), b_hash = $(Hash, AmtB_Hash), b_len = $(Len, AmtB_Len),
+        b_cstr = $(C_Str, AmtB_C_Str), b_cmp = $(Cmp, AmtB_Cmp);
+    var TA = new_root(Type, $S("AmtA"), $I(sizeof(struct Amt)), a_new, a_cint, a_hash, a_len, a_cstr, a_cmp);
+    var x = new(TA, $I(v)), y = new(TA, $I(v2));
+    var s1 = new(String); print_to(s1, 0, "%i|%s", x, x);
+    P("%s:%" PRId64 ",%" PRIu64 ",%zu,%s,%d,%s ", c_str(TA), c_int(x), hash(x), len(x), c_str(x), cmp(x, y) < 0 ? -1 : cmp(x, y) > 0, c_str(s1));
+    del(x); del(y); del_root(TA);
+    var TB = new_root(Type, $S("AmtB"), $I(sizeof(struct Amt)), b_new, b_cmp, b_cstr, b_len, b_hash, b_cint);
+    x = new(TB, $I(v)); y = new(TB, $I(v2));
+    print_to(s1, 0, "%i|%s", x, x);
+    P("%s:%" PRId64 ",%" PRIu64 ",%zu,%s,%d,%s ", c_str(TB), c_int(x), hash(x), len(x), c_str(x), cmp(x, y) < 0 ? -1 : cmp(x, y) > 0, c_str(s1));
+    var seen = new(Table, Int, Int); set(seen, $I((int64_t)hash(x)), $I(1)); P("%d", (int)mem(seen, $I(v / 100 * 31)));
+    var arr = new(Array, TB); push(arr, x); push(arr, y); sort(arr); P(",%" PRId64, c_int(get(arr, $I(0))));
+    del(arr); del(seen); del(s1); del(x); del(y); del_root(TB);
     return;
   }
   if (strcmp(op, "hv") == 0) {
